@@ -4,6 +4,7 @@ import Mochi.Props.TieA.Attach
 import Mochi.Props.TieA.Handlers
 import Mochi.Props.TieA.WriteLoop
 import Mochi.Props.TieA.Decode
+import Mochi.Props.TieA.Listener
 /-!
 # Tie A obligations over the regenerated tables and statement orders
 
@@ -15,6 +16,7 @@ import Mochi.Props.TieA.Decode
 | `TieA/Handlers.lean`   | `Gen/Programs.lean`   | `C21_suback_after_store_tied`, `C09_pubrec_order_tied`, `C09_pubrel_order_tied`, `C07_publish_order_tied` | C21 C09 C07 |
 | `TieA/WriteLoop.lean`  | `Gen/Programs.lean`   | `C34_writeloop_order_tied`                                    | C34 |
 | `TieA/Decode.lean`     | `Gen/Programs.lean`   | `C27_properties_decode_order_tied`                            | C27 C28 C26 |
+| `TieA/Listener.lean`   | `Gen/Programs.lean`   | `C36_tcp_serve_order_tied`, `C36_tcp_close_order_tied`        | C36 |
 
 Self-test (extractor pointed at a mutated scratch copy of /repo): removing `Subscribe: 1` from the
 `PropSubscriptionIdentifier` row breaks `C26_prop_table_tied`; moving `s.hooks.OnSubscribed(...)` after
